@@ -175,6 +175,74 @@ Theorem C04_body_follows_source : forall v, go_body v = body v.
 Proof. reflexivity. Qed.
 
 
+(* ---- X11: the FULL translation of governance.ral parseAndVerifyVAA (gen/x_ralverify.py; RalVerifyModel.ral_source, proved equal to the
+   hand model over ral_parse for every input: proofs/RalVerifyProofs.ral_source_eq).  On the bytes the node's Marshal produces, the
+   translated source consults its recovery oracle over exactly the digest the node signs (digest keccak v = keccak (keccak (body v))),
+   reads the signature records the node wrote, and hands back the node's own emitter chain, target chain, emitter address, sequence and
+   payload — whatever functions keccak256! and ethEcRecover! are *)
+From WH Require lib.Ralph model.RalVerifyModel proofs.RalVerifyProofs.
+
+Theorem C04_ral_source_hashes_what_the_node_signs : forall keccak ecrecover s gov v, wf v ->
+  RalVerifyModel.ral_source keccak ecrecover s gov (marshal v) =
+  if gov && negb (gsidx v =? RalVerifyModel.gs_cur_idx s) then None else
+  match RalVerifyModel.guardians_for s (gsidx v) with
+  | None => None
+  | Some g =>
+    match RalVerifyModel.set_size g with
+    | None => None
+    | Some n =>
+      if n =? 0 then None else
+      if negb (go_quorum n <=? Z.of_nat (length (sigs v))) then None else
+      if RalVerifyModel.recs_ok ecrecover (digest keccak v) g (-1) (map (fun sg => (s_idx sg, s_data sg)) (sigs v))
+      then Some [Ralph.RZ (echain v); Ralph.RZ (tchain v); Ralph.RB (eaddr v); Ralph.RZ (seq v); Ralph.RB (payload v)] else None
+    end
+  end.
+Proof. exact RalVerifyProofs.ral_source_on_marshal. Qed.
+
+(* non-vacuity: ex_vaa (wf, above) with a third signature, a stored set of three keys, toy oracles (address of a signature = its first
+   20 bytes); with the real Keccak-256 as keccak256! the digest handed to the recovery is C04_example_digest's function of the body *)
+Definition ex_vaa3 : vaa :=
+  {| version := 1; gsidx := 3; sigs := [ {| s_idx := 0; s_data := repeat x11 65 |}; {| s_idx := 1; s_data := repeat x22 65 |}; {| s_idx := 2; s_data := repeat x33 65 |} ];
+     ts := 1700000000; tns := 0; nonce := 7; echain := 255; tchain := 2; eaddr := repeat xab 32; seq := 42; cl := 1;
+     payload := [x01; x02; x03] |}.
+Example C04_ral_source_example :
+  let st := {| RalVerifyModel.gs_cur_idx := 3; RalVerifyModel.gs_cur := x03 :: repeat x11 20 ++ repeat x22 20 ++ repeat x33 20;
+               RalVerifyModel.gs_prev_idx := 2; RalVerifyModel.gs_prev := []; RalVerifyModel.gs_now := 0; RalVerifyModel.gs_prev_exp := 0 |} in
+  wfb ex_vaa3 = true /\
+  RalVerifyModel.ral_source keccak256 (fun h s => if bytes_eqb h (digest keccak256 ex_vaa3) then Some (firstn 20 s) else None) st true (marshal ex_vaa3)
+    = Some [Ralph.RZ 255; Ralph.RZ 2; Ralph.RB (repeat xab 32); Ralph.RZ 42; Ralph.RB [x01; x02; x03]].
+Proof. vm_compute. split; reflexivity. Qed.
+
+(* ---- X12: Messages.sol parseVM translated IN FULL (gen/x_solverify.py -> gen/ExtractedSolVerify.v: every statement — reads through
+   BytesLib with their bounds requires, `index += k` and `toUint8(index) + 27` as CHECKED uintN additions, the signature loop as a
+   Fixpoint, `vm.signatures[i].f = ..` as array updates, `require(vm.version == 1)`, the slice that is hashed, the hash expression).
+   src_parseVM is that generated function; None = the call reverts. *)
+From WH Require lib.SolRt gen.ExtractedSolVerify proofs.SolVerifyProofs.
+
+(* the translated function IS the contract model of this file's C04_solidity_agrees (sol_parse over the extracted layouts), field for
+   field, for EVERY input that fits into memory; it reverts exactly when sol_parse fails or a signature's 65th byte + 27 leaves uint8 *)
+Theorem C04_sol_source_parseVM_is_the_model : forall E bs, SolVerifyProofs.fits_memory bs ->
+  ExtractedSolVerify.src_parseVM E bs = SolVerifyProofs.sol_parse_vm (ExtractedSolVerify.e_keccak256 E) bs.
+Proof. exact SolVerifyProofs.src_parseVM_eq. Qed.
+
+(* on the node's own wire form the translated parseVM returns the node's field values, the node's signature records (v = recovery id +
+   27) and, as vm.hash, keccak256(keccak256(.)) of exactly the bytes the node signs — the digest of this file, for whatever function
+   keccak256 is (in particular lib/Keccak.v's) *)
+Theorem C04_sol_source_hashes_what_the_node_signs : forall E v,
+  wf v -> SolVerifyProofs.fits_memory (marshal v) -> Forall SolVerifyProofs.recid_ok (sigs v) ->
+  ExtractedSolVerify.src_parseVM E (marshal v) = Some (SolVerifyProofs.vm_of_vaa (ExtractedSolVerify.e_keccak256 E) v) /  ExtractedSolVerify.VM_hash (SolVerifyProofs.vm_of_vaa (ExtractedSolVerify.e_keccak256 E) v) = digest (ExtractedSolVerify.e_keccak256 E) v /  digest (ExtractedSolVerify.e_keccak256 E) v = ExtractedSolVerify.e_keccak256 E (ExtractedSolVerify.e_keccak256 E (body v)).
+Proof. intros E v W M R. repeat apply conj; [apply SolVerifyProofs.src_parseVM_marshal; assumption|reflexivity|reflexivity]. Qed.
+
+(* non-vacuity: ex_vaa (two signatures) with the Gallina Keccak-256 as the hash oracle: the hypotheses hold, the translated parseVM returns
+   C04_example_digest as vm.hash; truncated by one byte of the last fixed field, with a wrong version, or with a 65th signature byte of
+   229 (229 + 27 = 256) it reverts *)
+Definition ex_solenv : ExtractedSolVerify.SolEnv :=
+  {| ExtractedSolVerify.e_keccak256 := keccak256; ExtractedSolVerify.e_ecrecover := fun _ _ r _ => firstn 20 r;
+     ExtractedSolVerify.e_getGuardianSet := fun _ => ExtractedSolVerify.zero_GuardianSet; ExtractedSolVerify.e_curidx := 3; ExtractedSolVerify.e_now := 0 |}.
+Example C04_sol_source_example :
+  wfb ex_vaa = true /\ SolVerifyProofs.fits_memory (marshal ex_vaa) /  forallb (fun s => unbe (skipn 64 (s_data s)) + 27 <? 2 ^ 8) (sigs ex_vaa) = true /  option_map ExtractedSolVerify.VM_hash (ExtractedSolVerify.src_parseVM ex_solenv (marshal ex_vaa)) = Some (digest keccak256 ex_vaa) /  option_map ExtractedSolVerify.VM_sequence (ExtractedSolVerify.src_parseVM ex_solenv (marshal ex_vaa)) = Some 42 /  option_map (fun vm => map ExtractedSolVerify.Signature_v (ExtractedSolVerify.VM_signatures vm)) (ExtractedSolVerify.src_parseVM ex_solenv (marshal ex_vaa)) = Some [44; 61] /  ExtractedSolVerify.src_parseVM ex_solenv (firstn 189 (marshal ex_vaa)) = None /  ExtractedSolVerify.src_parseVM ex_solenv (x02 :: skipn 1 (marshal ex_vaa)) = None /  ExtractedSolVerify.src_parseVM ex_solenv (firstn 71 (marshal ex_vaa) ++ xe5 :: skipn 72 (marshal ex_vaa)) = None /  SolVerifyProofs.sol_parse_vm keccak256 (firstn 71 (marshal ex_vaa) ++ xe5 :: skipn 72 (marshal ex_vaa)) = None /  sol_parse (firstn 71 (marshal ex_vaa) ++ xe5 :: skipn 72 (marshal ex_vaa)) <> None.
+Proof. vm_compute. repeat apply conj; try reflexivity. discriminate. Qed.
+
 Print Assumptions C04_body_layout.
 Print Assumptions C04_digest_is_double_hash.
 Print Assumptions C04_independent_of_header.
@@ -194,3 +262,6 @@ Print Assumptions C04_digest_follows_source.
 Print Assumptions C04_keccak_parameters_follow_source.
 Print Assumptions C04_keccak_tables_are_fips202.
 Print Assumptions C04_body_follows_source.
+Print Assumptions C04_ral_source_hashes_what_the_node_signs.
+Print Assumptions C04_sol_source_parseVM_is_the_model.
+Print Assumptions C04_sol_source_hashes_what_the_node_signs.
